@@ -33,6 +33,7 @@ class Plans:
         self.plans: dict[str, ClassPlan] = {}
         self._mods = None
         self.t_build = 0.0
+        self.factory_log: dict = {"allocs": [], "mutations": [], "captured_mutable": []}
 
     # the four anchors of the reflective codec -------------------------------------------------
     def anchors(self):
@@ -61,12 +62,12 @@ class Plans:
             cls = I.entity_class(key)
             p.cls = cls
             try:
-                p.reader = I.call(er, [cls], {}, Run(), None)
+                p.reader = self.run_factory(er, cls, "reader")
             except Raised as r:
                 p.error = {"side": "reader", "exc": short_exc(r.cls), "msg": repr(r.exc), "site": r.site}
                 return p
             try:
-                p.writer = I.call(ew, [cls], {}, Run(), None)
+                p.writer = self.run_factory(ew, cls, "writer")
             except Raised as r:
                 p.error = {"side": "writer", "exc": short_exc(r.cls), "msg": repr(r.exc), "site": r.site}
                 return p
@@ -78,6 +79,20 @@ class Plans:
         finally:
             self.t_build += time.time() - t0
         return p
+
+    def run_factory(self, factory, cls, side):
+        """Call the cached factory; whatever it allocates or mutates while building the plan is
+        state that outlives the call (E4: allocation scope / captured state)."""
+        from .values import _ids
+        base = next(_ids)
+        run = Run()
+        clo = self.I.call(factory, [cls], {}, run, None)
+        for e in run.effects:
+            if e[0] == "alloc":
+                self.factory_log["allocs"].append([side, cls.ref, e[2]])
+            elif e[0] == "mutate" and getattr(e[1], "uid", base + 1) < base:
+                self.factory_log["mutations"].append([side, cls.ref, e[3], e[2]])
+        return clo
 
     def link(self, p: ClassPlan):
         """Tie reader variables / writer attributes to field names."""
@@ -312,8 +327,10 @@ def load_bundle(ctx) -> dict:
         except Exception:
             pass
     P = ctx.plans
+    prims = analyse_primitives(P)
     P.build_all()
-    b = {"classes": {k: export_plan(p) for k, p in P.plans.items()}, "stats": dict(P.A.stats)}
+    b = {"classes": {k: export_plan(p) for k, p in P.plans.items()}, "stats": dict(P.A.stats),
+         "primitives": prims, "engine": engine_export(P), "factory": P.factory_log}
     b = json.loads(json.dumps(b))  # normalise (tuples -> lists, int keys -> str) exactly as a cache hit would
     try:
         CACHE_DIR.mkdir(exist_ok=True)
@@ -323,3 +340,94 @@ def load_bundle(ctx) -> dict:
     except OSError:
         pass
     return b
+
+
+# ------------------------------------------------------------------------------- primitives
+
+PRIMITIVE_DOMAINS = {  # public writers annotated with plain `int`: the domain the Kafka encoding is defined on
+    "write_unsigned_varlong": "uvarlong", "write_signed_varint": "i32", "write_signed_varlong": "i64",
+    "write_compact_array_length": "i32",
+}
+FACTORY_ITEM = {"compact_array_reader": "read_int32", "legacy_array_reader": "read_int32",
+                "compact_array_writer": "write_int32", "legacy_array_writer": "write_int32"}
+
+
+def analyse_primitives(P: Plans) -> dict:
+    """Descriptor of every public function of kio.serial.readers / kio.serial.writers, analysed
+    standalone (value types from the parameter annotation or the domain table)."""
+    import ast
+    I, D = P.I, P.D
+    out = {"readers": {}, "writers": {}}
+    rm, wm = I.module("kio.serial.readers"), I.module("kio.serial.writers")
+    prim = I.module("kio.static.primitive").env.vars
+    for name, f in rm.env.vars.items():
+        if not isinstance(f, FuncV) or f.module != "kio.serial.readers" or name.startswith("_"):
+            continue
+        params = [a.arg for a in f.node.args.args]
+        if len(params) == 1:
+            anns = [f.node.args.args[0].annotation]
+            if anns[0] is not None and "IO" in ast.unparse(anns[0]) or params[0] in ("buffer", "stream"):
+                out["readers"][name] = {"desc": export_desc(D.reader_desc(f)), "line": f.node.lineno, "kind": "reader"}
+                continue
+        if name in FACTORY_ITEM:
+            try:
+                clo = I.call(f, [rm.env.vars[FACTORY_ITEM[name]]], {}, Run(), None)
+                out["readers"][name] = {"desc": export_desc(D.reader_desc(clo)), "line": f.node.lineno, "kind": "factory"}
+            except (Raised, Limit) as e:
+                out["readers"][name] = {"desc": opaque(f"factory call failed: {e}"), "line": f.node.lineno, "kind": "factory"}
+            continue
+        out["readers"][name] = {"desc": None, "line": f.node.lineno, "kind": "helper", "params": params}
+    for name, f in wm.env.vars.items():
+        if not isinstance(f, FuncV) or f.module != "kio.serial.writers" or name.startswith("_"):
+            continue
+        params = f.node.args.args
+        if name in FACTORY_ITEM:
+            try:
+                clo = I.call(f, [wm.env.vars[FACTORY_ITEM[name]]], {}, Run(), None)
+                t = GenericV(LibClass.get("tuple"), (prim["i32"], Ellipsis))
+                out["writers"][name] = {"desc": export_desc(D.writer_desc(clo, UnionV((t, None)))), "line": f.node.lineno,
+                                        "kind": "factory", "vtype": "tuple[i32, ...] | None"}
+            except (Raised, Limit) as e:
+                out["writers"][name] = {"desc": opaque(f"factory call failed: {e}"), "line": f.node.lineno, "kind": "factory"}
+            continue
+        if len(params) == 2:
+            ann = params[1].annotation
+            t = I.ev_annotation(ann, f.env, Run()) if ann is not None else None
+            if name in PRIMITIVE_DOMAINS:
+                t = prim[PRIMITIVE_DOMAINS[name]]
+            if isinstance(t, OpaqueV) or t is None:
+                out["writers"][name] = {"desc": opaque("no value domain known for this writer"), "line": f.node.lineno, "kind": "writer"}
+                continue
+            descs = {}
+            alts = I.alts(t)
+            nn = [a for a in alts if a is not LibClass.get("NoneType")]
+            # a union of several value types (str | bytes) is analysed once per alternative
+            variants = [t] if len(nn) <= 1 else [UnionV([a] + ([None] if len(alts) > len(nn) else [])) for a in nn]
+            for vt in variants:
+                descs[repr(vt)] = export_desc(D.writer_desc(f, vt))
+            out["writers"][name] = {"desc": descs[repr(variants[0])], "variants": descs, "line": f.node.lineno, "kind": "writer",
+                                    "vtype": repr(t)}
+        elif len(params) == 1:
+            try:
+                ps = P.A.paths(f, [StreamV("param")], direction="w")
+            except Limit:
+                ps = []
+            out["writers"][name] = {"desc": None, "line": f.node.lineno, "kind": "nullary"}
+        else:
+            out["writers"][name] = {"desc": None, "line": f.node.lineno, "kind": "helper",
+                                    "params": [a.arg for a in params]}
+    return out
+
+
+def engine_export(P: Plans) -> dict:
+    A = P.A
+    return {
+        "effects": [list(k) + [n] for k, n in sorted(A.log.items(), key=lambda kv: tuple(map(str, kv[0])))],
+        "raises": [list(k) + [n] for k, n in sorted(A.raises.items(), key=lambda kv: tuple(map(str, kv[0])))],
+        "handled": [list(k) + [n] for k, n in sorted(A.handled.items())],
+        "functions": sorted(A.functions),
+        "atoms": [{"kind": a["kind"], "fn": a["fn"], "line": a["line"], "max_bytes": a.get("max_bytes"),
+                   "exc": short_exc(a["exc"]) if a.get("exc") is not None else None,
+                   "overflow_exc": a.get("overflow_exc")} for a in A.atoms.values() if a is not None],
+        "cached_functions": sorted(f for f in A.functions if False),
+    }
